@@ -317,57 +317,78 @@ section SourceTies
 open SerfModel.CoalesceShapes SerfModel.Gen.Coalescers
 
 /-- **`Coalesce`, interpreted.**  The body of `userEventCoalescer.Coalesce` — its guards translated
-from the source and evaluated, its two actions (a fresh one-element entry stored under the name;
-append to the entry) — computes exactly the model's `coalesce`, on every state and event: no
-entry or strictly newer ⇒ replace the whole slice; equal time ⇒ append; older ⇒ nothing. -/
+from the source and evaluated (with Go's short-circuit, so the entry is never dereferenced when
+absent), its two actions (a fresh one-element entry stored under the name; append to the entry) —
+computes exactly the model's `coalesce`, on every state and event: no entry or strictly newer ⇒
+replace the whole slice; equal time ⇒ append; older ⇒ nothing.  Independent of variable names,
+of early-return vs if/else, of the orientation of the guards. -/
 theorem C18_coalesce_is_source_program (c : UC) (e : UserEv) :
-    runUserProg userCoalesceProg c e = some (coalesce c e) := by
+    runU userCoalesceProg c e = some (coalesce c e) := by
   unfold coalesce
   cases h : alookup c e.name with
   | none =>
-    simp [userCoalesceProg, runUserProg, Cond.eval, natOps, userEnvB, userEnvV, h]
+    simp [userCoalesceProg, runU, Cond.eval, natOps, userEnvB, userEnvV, h]
   | some v =>
     obtain ⟨lt, evs⟩ := v
-    by_cases h1 : lt < e.lt
-    · simp [userCoalesceProg, runUserProg, Cond.eval, natOps, userEnvB, userEnvV, h, h1]
-    · by_cases h2 : lt = e.lt
-      · simp [userCoalesceProg, runUserProg, Cond.eval, natOps, userEnvB, userEnvV, h, h2]
-      · have h3 : (lt == e.lt) = false := by simpa using h2
-        simp [userCoalesceProg, runUserProg, Cond.eval, natOps, userEnvB, userEnvV, h, h1, h2, h3]
-
-/-- What precedes the guards: the type assertion and the map lookup by the event's name. -/
-theorem C18_coalesce_prologue :
-    userCoalescePrologue = ["user := e.(UserEvent)", "latest, ok := c.events[user.Name]"] := by decide
+    -- the three ages, each with every comparison the source might have written
+    rcases Nat.lt_trichotomy lt e.lt with h1 | h1 | h1
+    · have a1 : ¬ e.lt < lt := by omega
+      have a2 : lt ≤ e.lt := by omega
+      have a3 : ¬ e.lt ≤ lt := by omega
+      have a4 : ¬ lt = e.lt := by omega
+      have a5 : ¬ e.lt = lt := by omega
+      have b1 : (lt == e.lt) = false := by simpa using a4
+      have b2 : (e.lt == lt) = false := by simpa using a5
+      have b3 : (lt != e.lt) = true := by simp [bne, b1]
+      have b4 : (e.lt != lt) = true := by simp [bne, b2]
+      simp [userCoalesceProg, runU, Cond.eval, natOps, userEnvB, userEnvV, h, h1, a1, a2, a3, a4, a5, b1, b2, b3, b4]
+    · subst h1
+      simp [userCoalesceProg, runU, Cond.eval, natOps, userEnvB, userEnvV, h]
+    · have a1 : ¬ lt < e.lt := by omega
+      have a2 : ¬ lt ≤ e.lt := by omega
+      have a3 : e.lt ≤ lt := by omega
+      have a4 : ¬ lt = e.lt := by omega
+      have a5 : ¬ e.lt = lt := by omega
+      have b1 : (lt == e.lt) = false := by simpa using a4
+      have b2 : (e.lt == lt) = false := by simpa using a5
+      have b3 : (lt != e.lt) = true := by simp [bne, b1]
+      have b4 : (e.lt != lt) = true := by simp [bne, b2]
+      simp [userCoalesceProg, runU, Cond.eval, natOps, userEnvB, userEnvV, h, h1, a1, a2, a3, a4, a5, b1, b2, b3, b4]
 
 /-- `Flush` sends every stored event, name by name, each name's slice front to back, and then
 replaces the map by an empty one (`flush c = ([], c.flatMap (·.2.2))`): nothing — not even a
 Lamport time — survives a flush. -/
 theorem C18_flush_shape :
     userFlushStmts =
-      ["for _, latest := range c.events", "  for _, e := range latest.Events", "    outChan <- e",
-       "c.events = make(map[string]*latestUserEvents)"] := by decide
+      ["range r.events { range r.events[*].Events { p0 <- r.events[*].Events[*] } }",
+       "r.events = make(map[string]*latestUserEvents)"] := by decide
 
-/-- `Handle`: user events only, and among them those with the `Coalesce` flag (`handles`). -/
-theorem C18_handle_shape :
-    userHandleStmts =
-      ["if e.EventType() != EventUser { return false }", "user := e.(UserEvent)", "return user.Coalesce"] := by decide
+/-- **`Handle`, interpreted**: for a user event the result is its Coalesce flag, for any other event
+type it is false — and the type assertion is never evaluated on a non-user event (`handles`). -/
+theorem C18_handle_is_source_program :
+    (∀ flag : Bool, userHandleProg.evalBool natOps (handleEnvB (some flag)) (handleEnvV 5) = some flag) ∧
+    (∀ k : MemberCoalesce.Kind, userHandleProg.evalBool natOps (handleEnvB none) (handleEnvV (kindCode k)) = some false) ∧
+    userHandleProg.evalBool natOps (handleEnvB none) (handleEnvV 6) = some false := by
+  refine ⟨fun f => by cases f <;> rfl, fun k => by cases k <;> rfl, rfl⟩
 
-/-- **`coalesceLoop`, case by case** — what `SerfModel.CoalesceLoop.step` mirrors:
-an unhandled event is sent on and the loop continues (before anything else is done with it);
-a handled one arms the quantum timer only if it is not running, re-arms the quiescent timer
-always, and is coalesced; either timer and the shutdown jump to FLUSH (the shutdown setting the
-flag first); INGEST clears both timers; FLUSH calls `Flush` on the output channel and restarts
-unless shutting down. -/
+/-- **`coalesceLoop`, case by case** — what `SerfModel.CoalesceLoop.step` mirrors, in canonical
+names (p0 inCh, p1 outCh, p2 shutdownCh, p3 coalescePeriod, p4 quiescentPeriod, p5 the coalescer;
+v0 quiescent, v1 quantum, v2 shutdown, v3 the event): an unhandled event is sent on and the loop
+continues; a handled one arms the quantum timer only if it is not running, re-arms the quiescent
+timer always, and is coalesced; either timer and the shutdown jump to FLUSH (the shutdown setting
+the flag first); INGEST clears both timers; FLUSH calls `Flush` on the output channel and restarts
+unless shutting down.  The event case is INTERPRETED (`runL`): whatever its shape (early `continue`,
+if/else, flipped test), an unhandled event is only forwarded, a handled one only arms, re-arms and
+is coalesced. -/
 theorem C18_loop_shape :
+    runL loopEventProg false = some ["forward"] ∧
+    runL loopEventProg true = some ["armQuantumIfIdle", "rearmQuiescent", "coalesce"] ∧
     loopCases =
-      [("e := <-inCh", ["if !c.Handle(e) { outCh <- e continue }",
-                        "if quantum == nil { quantum = time.After(coalescePeriod) }",
-                        "quiescent = time.After(quiescentPeriod)", "c.Coalesce(e)"]),
-       ("<-quantum", ["goto FLUSH"]), ("<-quiescent", ["goto FLUSH"]),
-       ("<-shutdownCh", ["shutdown = true", "goto FLUSH"])] ∧
-    loopIngest = ["quantum = nil", "quiescent = nil", "for { select }"] ∧
-    loopFlush = ["c.Flush(outCh)", "if !shutdown { goto INGEST }"] ∧
-    loopPrologue = ["var quiescent <-chan time.Time", "var quantum <-chan time.Time", "shutdown := false"] := by decide
+      [("v3 := <-p0", ["EVENT"]),
+       ("<-v1", ["goto FLUSH"]), ("<-v0", ["goto FLUSH"]), ("<-p2", ["v2 = true", "goto FLUSH"])] ∧
+    loopIngest = ["v1 = nil", "v0 = nil", "for { select }"] ∧
+    loopFlush = ["p5.Flush(p1)", "if !v2 { goto INGEST }"] ∧
+    loopPrologue = ["var v0 <-chan time.Time", "var v1 <-chan time.Time", "v2 := false"] := by decide
 
 end SourceTies
 
